@@ -50,6 +50,7 @@ type RunOut struct {
 	Shape      string         `json:"shape,omitempty"`
 	Trace      []string       `json:"trace,omitempty"`
 	DiskTrace  []string       `json:"disk_trace,omitempty"`
+	HistLen    int            `json:"hist_len,omitempty"`
 }
 
 type snapState struct {
@@ -88,6 +89,8 @@ type runner struct {
 	wantTrace   bool
 	roCheck     bool
 	failedEpoch []int
+	cs          *concState
+	mutBy       map[int]int
 }
 
 func (r *runner) probe(name string) {
@@ -116,7 +119,7 @@ func RunCase(t *testing.T, c *Case, wantTrace bool) *RunOut {
 		runComponent(t, c, out, wantTrace)
 		return out
 	}
-	r := &runner{c: c, out: out, knobs: c.Knobs, inflight: -1, required: map[int]bool{}, snaps: map[int]*snapState{}, iters: map[int]*iterState{}, wantTrace: wantTrace}
+	r := &runner{c: c, out: out, knobs: c.Knobs, inflight: -1, mutBy: map[int]int{}, required: map[int]bool{}, snaps: map[int]*snapState{}, iters: map[int]*iterState{}, wantTrace: wantTrace}
 	r.disk = simdisk.New()
 	r.disk.KeepTrace = wantTrace
 	for _, f := range c.Faults {
@@ -170,6 +173,9 @@ func RunCase(t *testing.T, c *Case, wantTrace bool) *RunOut {
 			n = 80
 		}
 		out.DiskTrace = r.disk.Trace[len(r.disk.Trace)-n:]
+	}
+	if c.Scenario == "conc" && res.Panic == nil && res.Hang == nil {
+		r.checkLin()
 	}
 	if res.Panic != nil {
 		fr := panicFrame(res.Panic.Stack)
@@ -1036,4 +1042,15 @@ func trimStack(s string) string {
 		return s[:3000]
 	}
 	return s
+}
+
+func rangeOfOp(op *Op) util.Range {
+	var rg util.Range
+	if op.HasS {
+		rg.Start = append([]byte{}, op.Start...)
+	}
+	if op.HasL {
+		rg.Limit = append([]byte{}, op.Limit...)
+	}
+	return rg
 }
